@@ -193,6 +193,8 @@ def check(run):
         from props.c01 import run_inside_names
         run_inside_names(run, binary, base, prop='C02')          # F14: odd names of a file source placed inside a trailing-slash destination
         relative_remote_family(run, binary, base, rng, 9 if quick else 60)
+        from props.c17 import unreadable_subfolder_family
+        unreadable_subfolder_family(run, binary)       # a boss that plans without the whole destination listing writes through the links that are there
         from props.c12 import kept_link_scripted
         kept_link_scripted(run, binary, jbin, quick, prop='C02')
         scen = []
